@@ -151,7 +151,7 @@ class Check:
         write_json(os.path.join(VERIF, "evidence", "%s.json" % self.pid), ev)
         for k in self.known_hits:
             print("KNOWN-FINDING: property=%s %s" % (self.pid, k["what"]))
-        for (key, path, no_input) in self.violations:
+        for (key, path, no_input) in sorted(self.violations, key=lambda v: v[2]):
             print("VIOLATION property=%s replay=%s%s" % (self.pid, path, " no-failing-input-found" if no_input else ""))
         sys.stdout.flush()
         return 1 if self.violations else 0
